@@ -24,8 +24,8 @@ let zs_of_string s =
 let op_of_string s =
   match split_on ':' s with
   | ["g"; i] -> OpGet (z_of_string i)
-  | ["a"] | ["b"] | ["n"] -> OpAppend []
-  | ["a"; xs] | ["b"; xs] | ["n"; xs] -> OpAppend (zs_of_string xs)
+  | ["a"] | ["b"] | ["n"] | ["N"] -> OpAppend []
+  | ["a"; xs] | ["b"; xs] | ["n"; xs] | ["N"; xs] -> OpAppend (zs_of_string xs)
   | ["i"; i; x] -> OpAdd (z_of_string i, z_of_string x)
   | ["s"; i; x] -> OpSet (z_of_string i, z_of_string x)
   | ["d"; i] -> OpDelete (z_of_string i)
@@ -107,6 +107,18 @@ let run spec =
       print_endline (String.concat ";" (List.map show_entry obs))
     | _ -> print_endline "badcase")
 
+(* `modelrun list-realloc`: lines "<len> <cap> <op>" -> 1 / 0 = ListMemModel.reallocates: does this
+   ArrayList call move vals to a new backing array (proved exact in props/C04_mem.v) *)
+let run_realloc () =
+  iter_lines (fun line ->
+    match words line with
+    | [l; c; o] ->
+      let h = { SliceMemModel.h_arr = nat_of_int 0; h_off = nat_of_int 0;
+                h_len = nat_of_int (int_of_string l); h_cap = nat_of_int (int_of_string c) } in
+      print_endline (if ListMemModel.reallocates h (fst (fst (step_of_string o))) then "1" else "0")
+    | _ -> print_endline "badcase")
+
 let () =
+  Registry.register "list-realloc" (fun _ -> run_realloc ());
   Registry.register "list" (fun _ -> run false);
   Registry.register "list-spec" (fun _ -> run true)
